@@ -139,6 +139,11 @@ def generate(seed, n_hist, n_conc_key, n_conc_new, n_scan, n_poison=0):
     for i in range(n_scan):
         v = (seed * 7 + i) % 200
         cases.append({"id": f"scan-{v}", "kind": "scan", "ops": [f"scan enc {v}", f"scan plain {v}"]})
+    if n_scan:
+        # the same scan with the database named by a relative path that starts with ':' (a file in the current directory for
+        # SQLite, a "special" name for parts of mdk): it must be encrypted at rest like any other
+        v = (seed * 11 + 5) % 200
+        cases.append({"id": f"scan-colon-{v}", "kind": "scan", "ops": [f"scan enccolon {v}"]})
     return cases
 
 def load_corpus():
@@ -505,12 +510,20 @@ def oracle(cases):
                     fails.append({"kind": "corr", "signature": "oracle:scan-could-not-run", "what": f"{c['id']}: {out[:200]}",
                                   "replay_body": case_text(c, k), "case": c, "step": k})
                     continue
-                files = [f.split(":") for f in (field(out, "files") or "").split(",") if f]
+                colon = mode == "enccolon"
+                files = [f.rsplit(":", 2) for f in (field(out, "files") or "").split(",") if f]
                 for f in files:
-                    kind = "main" if f[0] == "db.sqlite" else f[0].replace("db.sqlite", "")
+                    kind = "main" if f[0].lstrip(":") == "db.sqlite" else f[0].lstrip(":").replace("db.sqlite", "")
                     stats["scan_files_seen"][kind] = stats["scan_files_seen"].get(kind, 0) + 1
                     if f[2] not in ("600", "-"):
-                        fail(c, k, "mode-bits-sidecar", f"file {f[0]} has mode {f[2]}")
+                        if colon:
+                            # observation, not enforced: for names starting with ':' mdk skips its permission handling (it treats
+                            # them like ":memory:"), so the files keep the process umask's mode
+                            stats["colon_name_file_modes"] = stats.get("colon_name_file_modes", {}); stats["colon_name_file_modes"][f[2]] = stats["colon_name_file_modes"].get(f[2], 0) + 1
+                        else:
+                            fail(c, k, "mode-bits-sidecar", f"file {f[0]} has mode {f[2]}")
+                if colon:
+                    mode = "enc"            # everything below: as for an encrypted database (the harness made the directory itself)
                 if field(out, "dirmode") != "700":
                     fail(c, k, "mode-bits-dir", f"directory created by mdk has mode {field(out, 'dirmode')}")
                 stats["hot_journals"] += int(field(out, "hot_journal") or 0)
